@@ -143,6 +143,22 @@ func loadWorldMin(repoDir string, minPkgs int) (*World, error) {
 	w.stats["files_analysed"] = nfiles
 	w.stats["functions_analysed"] = len(w.Funcs)
 
+	// class-hierarchy index for interface calls
+	implIndex = nil
+	implCache = map[*types.Func][]string{}
+	for _, p := range pkgs {
+		sc := p.Types.Scope()
+		for _, n := range sc.Names() {
+			if tn, ok := sc.Lookup(n).(*types.TypeName); ok && !tn.IsAlias() {
+				if nt, ok := tn.Type().(*types.Named); ok && nt.TypeParams() == nil {
+					if _, isIface := nt.Underlying().(*types.Interface); !isIface {
+						implIndex = append(implIndex, nt)
+					}
+				}
+			}
+		}
+	}
+
 	// 4. all SSA functions of gleece (named + anonymous + instantiations)
 	for fn := range ssautil.AllFunctions(prog) {
 		if fn.Pkg != nil && isAnalysedPkg(fn.Pkg.Pkg.Path()) && fn.Blocks != nil {
